@@ -6,7 +6,7 @@ use crate::bridge::*;
 use crate::model::*;
 use crate::report::*;
 use crate::rng::{Fp, Rng};
-use arimaa_engine_step::{Action, GameState};
+use arimaa_engine_step::{Action, GameState, Zobrist};
 use serde_json::{json, Value};
 use std::collections::HashMap;
 use std::time::Instant;
@@ -454,8 +454,38 @@ pub fn replay_longrep(f: &ReplayFile) -> Result<Option<(String, String)>, String
 
 fn query_all(gs: &GameState) -> u64 {
     let mut f = Fp::new();
-    for a in gs.valid_actions() {
+    let va = gs.valid_actions();
+    for a in &va {
         f.str(&a.to_string());
+    }
+    for a in gs.valid_actions_no_rep() {
+        f.str(&a.to_string());
+    }
+    // every other public observation of a state: none may use stack in proportion to the history
+    f.str(&gs.to_string());
+    f.u8((gs == gs) as u8);
+    {
+        use std::hash::{Hash, Hasher};
+        #[allow(deprecated)]
+        let mut h = std::hash::SipHasher::new();
+        gs.hash(&mut h);
+        f.u64(h.finish());
+    }
+    f.u8(gs.can_pass(false) as u8);
+    f.u64(gs.piece_board_for_step(gs.current_step()).all_pieces);
+    f.u64(gs.piece_board_for_step(0).all_pieces);
+    if let Some(a) = va.first() {
+        f.u8(gs.trapped_animal_for_action(a).is_some() as u8);
+    }
+    {
+        let h = gs.unwrap_play_phase().hash_history();
+        f.u64(h.iter().count() as u64);
+        f.u8(h.is_empty() as u8);
+        f.u8(h.head().is_some() as u8);
+        let t = h.tail();
+        f.u64(t.len() as u64);
+        let t2 = t.clone();
+        f.u64(t2.append(Zobrist::initial()).len() as u64);
     }
     f.u8(gs.is_terminal().is_some() as u8);
     f.u8(gs.can_pass(true) as u8);
@@ -487,6 +517,38 @@ fn child_body(n: u64, seed: u64) -> Result<String, String> {
     if d0 != d1 {
         return Err("clone answers differently".into());
     }
+    // a search frontier: every state reachable within the current turn (up to 600), all held at
+    // once, so that the newest history links have hundreds of owners; then an Option, a Vec of
+    // clones and a boxed state, released in bulk
+    let mut frontier: Vec<GameState> = vec![g.gs.clone()];
+    let mut i = 0;
+    while i < frontier.len() && frontier.len() < 600 {
+        let st = frontier[i].clone();
+        i += 1;
+        if st.is_p1_turn_to_move() != g.gs.is_p1_turn_to_move() || st.is_terminal().is_some() {
+            continue;
+        }
+        for a in st.valid_actions() {
+            if frontier.len() >= 600 {
+                break;
+            }
+            frontier.push(st.take_action(&a));
+        }
+    }
+    let fr_digest = frontier.iter().fold(0u64, |acc, s| acc.rotate_left(1) ^ s.transposition_hash() ^ s.unwrap_play_phase().hash_history().len() as u64);
+    let many: Vec<GameState> = (0..200).map(|_| g.gs.clone()).collect();
+    let boxed: Box<Option<GameState>> = Box::new(Some(g.gs.clone()));
+    let _ = query_all(&frontier[frontier.len() - 1]);
+    if seed % 2 == 0 {
+        drop(frontier);
+        drop(many);
+        drop(boxed);
+    } else {
+        drop(boxed);
+        drop(many);
+        drop(frontier);
+    }
+    let _ = fr_digest;
     // release order chosen by the seed: clone first or original first, older branch before or after
     let order = seed % 4;
     let LongGame { gs, .. } = g;
@@ -643,7 +705,7 @@ fn cmd_children(tier: &str, seed: u64, out: &str, replay_dir: &str) -> i32 {
         "part": "bounded_stack_children",
         "evaluations": results.len(),
         "distinct_nontrivial": distinct.len(),
-        "rule": "each case = one child process that plays N legal capture-free turns (generated by the reference model, cross-checked against valid_actions() at 40 points), then clones, queries, and drops the state, an older branch and the clone in a seed-chosen order on a thread with stack S; non-trivial = distinct (N >= 1000, S) pairs that completed",
+        "rule": "each case = one child process that plays N legal capture-free turns (generated by the reference model, cross-checked against valid_actions() at 40 points), then on a thread with stack S: queries everything public (both lists, result, can_pass, has_move, hash, Display, ==, Hash, boards of steps, capture preview, the history list's iter/len/head/tail/append), holds a search frontier of up to 600 states of the current turn plus 200 clones plus a boxed Option, releases them in bulk, and drops the state, an older branch and a clone in a seed-chosen order; non-trivial = distinct (N >= 1000, S) pairs that completed",
         "samples": samples,
         "faults_injected_and_effective": {"fault.bounded_stack": results.len(), "fault.release_order_variants": 4},
         "simulated_turns": total_turns,
